@@ -27,6 +27,7 @@ RULE = (
     "or >= 2 loaded elements. point_load: random node sets x constant/array/function values x 1-2 calls. pressure: one planar "
     "edge/face per case plus all faces of the body for the sign convention. beam_lineload: one straight member at any "
     "inclination (2D/3D, SEG2-5, Euler-Bernoulli/Timoshenko) x force or couple densities of degree <= 2. distinct = sha1 of the case."
+    ' Round 9: pressure_filled_inclusion enumerates volume type x sense of a filled inclusion x sense of the contour (pressure on the source face and the opposite one).'
 )
 ASSUMPTIONS = [
     "exact integrals over segments / planar polygons / extruded prisms of the recipe by Gauss-Legendre + Duffy of sufficient "
